@@ -55,7 +55,8 @@ class Ctx:
     def __init__(self, pid, tier, seed, replay=None):
         self.pid, self.tier, self.seed, self.replay = pid, tier, seed, replay
         self.t0 = time.time()
-        self.out = os.path.join(OUT, "%s-%s" % (pid, tier))
+        # VERIF_OUT_SUFFIX lets several runs of the same check (self-tests with overlays) work side by side
+        self.out = os.path.join(OUT, "%s-%s%s" % (pid, tier, os.environ.get("VERIF_OUT_SUFFIX", "")))
         shutil.rmtree(self.out, ignore_errors=True)
         os.makedirs(self.out, exist_ok=True)
         self.replay_dir = os.path.join(OUT, "replay")
@@ -283,6 +284,8 @@ def match_kf(kfs, pid, viol):
 # --------------------------------------------------------------------------- verdict + evidence
 
 def write_evidence(ctx, level, coverage, assumptions, violations):
+    if os.environ.get("VERIF_OUT_SUFFIX"):
+        return          # self-test runs do not touch the evidence files
     ev = {"property_id": ctx.pid, "tier": ctx.tier, "seed": int(ctx.seed), "level": level,
           "coverage": coverage, "assumptions": assumptions, "wall_s": round(time.time() - ctx.t0, 2),
           "violations": violations}
